@@ -30,6 +30,7 @@ from concurrent.futures import ThreadPoolExecutor
 from vf import build, tlc, trace, ledgerkit
 from vf import run as hrun
 from vf.core import InfraError
+from checks.deferred import Deferred
 
 LEVEL = "exploration"
 READY = True
@@ -247,7 +248,8 @@ def _classes(ctx, f):
         ctx.cls("K7:outputs-hold-other-data")
 
 
-def conformance(ctx, total, parts, first=0, only=None):
+def conformance(ctx, total, parts, first=0, only=None, deferred=None):
+    deferred = Deferred(ctx) if deferred is None else deferred
     lib = build.build_lib("san")
     exe = build.build_harness("c03", ["c03_drv.c"], lib)
     rd = tlc.rundir()
@@ -265,7 +267,8 @@ def conformance(ctx, total, parts, first=0, only=None):
         ledgerkit.annotate(events, CTX_FIELDS)
         fits = [e for e in events if e["e"] == "Fit"]
         if not fits:
-            raise InfraError("c03 harness produced no Fit events")
+            # a Fit event is written after PLS() returned: a tree on which every fit dies leaves Reset / Abort events only - they are still judged by TLC below
+            deferred.add("c03 harness produced no Fit events")
         for f in fits:
             ctx.case((f["shape"], f["p"], f["ny"], f["nlv"], f["xs"], f["ys"], f["kind"]), f["ny"] > 1 and f["nlv"] > 1)
             _classes(ctx, f)
@@ -282,15 +285,16 @@ def conformance(ctx, total, parts, first=0, only=None):
                 raise InfraError("c03 harness logged an incomplete block for case %s: %s (expected %s)" % (b[0].get("case"), cnt, want))
         if only is None:
             # vacuity: every input class of the schedule and every event kind really occurred
+            # (judged after the trace validation: fits that die on a changed tree write no Fit event and empty these classes)
             kinds = {k: sum(1 for f in fits if f["kind"] == k) for k in KINDS}
             if min(kinds.values()) == 0:
-                raise InfraError("c03 generator lost an input class: %s" % kinds)
+                deferred.add("c03 generator lost an input class: %s" % kinds)
             evk = {k: sum(1 for e in events if e["e"] == k) for k in EVENT_KINDS}
             if min(evk.values()) == 0:
-                raise InfraError("c03 harness no longer emits every event kind: %s" % evk)
+                deferred.add("c03 harness no longer emits every event kind: %s" % evk)
             shapes = {s: sum(1 for f in fits if f["shape"] == s and f["inst"] and f["nlv"] == f["rank"] and f["ny"] > 1) for s in ("tall", "tall1", "square", "wide1", "wide")}
             if min(shapes.values()) == 0:
-                raise InfraError("c03 generator lost a shape class at nlv = rank with several responses: %s" % shapes)
+                deferred.add("c03 generator lost a shape class at nlv = rank with several responses: %s" % shapes)
             ctx.cov["kinds"] = kinds
             ctx.cov["skipped_draws"] = sum(1 for e in events if e["e"] == "Skip")
         for b in blocks:
@@ -345,7 +349,7 @@ def conformance(ctx, total, parts, first=0, only=None):
             else:
                 ctx.note("(V) residual columns follow neither col %% ny nor floor(col / nlv)")
         elif only is None:
-            raise InfraError("no residual column discriminates the two rules: generator lost its ny>1, nlv>1 cases")
+            deferred.add("no residual column discriminates the two rules: generator lost its ny>1, nlv>1 cases")
         store, nw = infer_store(events)
         if store is not None:
             ctx.cov["storage_loop_inferred"] = dict(variant=store, wide_latent_variables=nw)
@@ -360,7 +364,7 @@ def conformance(ctx, total, parts, first=0, only=None):
             else:
                 ctx.note("(V) rows of xloadings / xweights beyond the objects are written for some wide models and not for others")
         elif only is None:
-            raise InfraError("no model with fewer objects than variables: generator lost its wide cases")
+            deferred.add("no model with fewer objects than variables: generator lost its wide cases")
         return events
     finally:
         shutil.rmtree(rd, ignore_errors=True)
@@ -482,13 +486,16 @@ def run(ctx):
         "ASan/UBSan build: any sanitizer report during a fit is a violation",
     ]
     model_part(ctx)
-    events = conformance(ctx, 800 if ctx.quick else 32000, 8 if ctx.quick else 16)
+    deferred = Deferred(ctx)
+    events = conformance(ctx, 800 if ctx.quick else 32000, 8 if ctx.quick else 16, deferred=deferred)
     try:
-        selftests(ctx, events)
+        if not deferred:
+            selftests(ctx, events)
     except InfraError as e:
         if not ctx.violations:
             raise
         ctx.note("binding self-test not conclusive on a trace that already carries violations: %s" % e)
+    deferred.settle()
 
 
 def replay(ctx, body):
